@@ -157,6 +157,57 @@ class X(object):
                          lambda prev, k: z3.If(z3.Or(prev == FLT, term(k) == FLT), FLT, INT), sort=DT, with_cell=False)
         return rf.at(j)
 
+    def srt(self, name, k, c):
+        """k-th smallest stored value of column c of family `name` (spec function; meaningful where no input is missing)"""
+        sc, rs = self.eng.sorted_column(self.st0, self.fam[name]["fid"])
+        return sc.at(k, c)
+
+    def srt_rangesum(self, name, lo, m, c):
+        sc, rs = self.eng.sorted_column(self.st0, self.fam[name]["fid"])
+        return rs.at(lo, m, c)
+
+    def numseq(self, name):
+        return self.numlists[name]["seq"]
+
+    def distinct(self, name):
+        return self.eng.distinct_pred(self.numseq(name))
+
+    def pairs(self, a, b):
+        qa, qb = (self.numseq(a) if isinstance(a, str) else a), (self.numseq(b) if isinstance(b, str) else b)
+        n = z3.simplify(z3.If(qb.n < qa.n, qb.n, qa.n))
+        return SeqV(n, lambda k: TupleV([qa.get(k), qb.get(k)]), meta={"zipped": [qa, qb]})
+
+    def sorted(self, a, b):
+        """(P, Q, m): the control points sorted by raw value (assumed contract of sorted(zip(a, b)))"""
+        new = self.eng.sorted_pairs(self.pairs(a, b))
+        return new.meta["P"], new.meta["Q"], new.n, new.meta["dist"]
+
+    def curve(self, key, P, Q, m, xv):
+        """Piecewise-linear curve through the sorted control points, flat outside; defined by cases.
+        Returns CV: Cell -> Real together with the defining facts (registered on the initial state)."""
+        reg = self.__dict__.setdefault("_curves", {})
+        if key in reg:
+            return reg[key]
+        CV = smt.fresh_fun("curve_" + key, Cell, z3.RealSort())
+
+        def seg(k, xx):
+            return (xx - P(k - 1)) * (Q(k) - Q(k - 1)) / (P(k) - P(k - 1)) + Q(k - 1)
+
+        def defn(c):
+            xx = xv(c)
+
+            def perk(k):
+                return z3.Implies(z3.And(k >= 1, k < m, P(k - 1) < xx, xx <= P(k)), CV(c) == seg(k, xx))
+
+            return perk
+
+        def ends(c):
+            xx = xv(c)
+            return z3.And(z3.Implies(xx <= P(0), CV(c) == Q(0)), z3.Implies(xx > P(m - 1), CV(c) == Q(m - 1)))
+
+        reg[key] = (lambda c: CV(c), [defn, ends])
+        return reg[key]
+
     def wsum(self, wname):
         """sum of a numeric list (the value the builtin sum() is assumed to return)"""
         seq = self.numlists[wname]["seq"]
@@ -171,6 +222,21 @@ def build_inputs(eng, ci, fuzzy_pre=True):
     x.st0 = st
     x.c = st.add_cell("c")
     st.lazy.append(x.facts)
+    eng._srt = {}
+
+    def srt_provider(s):
+        return eng.srt_facts(s)
+
+    srt_provider.wants_state = True
+    st.lazy.append(srt_provider)
+    for a in ("_distinct", "_numsum", "_sorted"):
+        eng.__dict__[a] = {}
+
+    def sorted_provider(s):
+        return eng.sorted_facts(s)
+
+    sorted_provider.wants_state = True
+    st.lazy.append(sorted_provider)
     st.kterms.append(z3.IntVal(0))
     entries, present = {}, {}
     for name, p in decl.inputs.items():
@@ -360,6 +426,9 @@ def cond_holds(st, cond):
     if isinstance(cond, tuple) and cond[0] == "exists_k":
         ks = st.all_kterms()
         return z3.Or(*[cond[1](k) for k in ks]) if ks else z3.BoolVal(False)
+    if isinstance(cond, tuple) and cond[0] == "and_not_exists_k":
+        k = st.add_k("k_sk")
+        return z3.And(cond[1], z3.Not(cond[2](k)))
     return cond
 
 
@@ -368,6 +437,9 @@ def cond_fails(st, cond):
     if isinstance(cond, tuple) and cond[0] == "exists_k":
         k = st.add_k("k_sk")
         return z3.Not(cond[1](k))
+    if isinstance(cond, tuple) and cond[0] == "and_not_exists_k":
+        ks = st.all_kterms()
+        return z3.Or(z3.Not(cond[1]), *[cond[2](k) for k in ks])
     return z3.Not(cond)
 
 
